@@ -95,7 +95,7 @@ func runEngine(c *mc.Ctx) {
 		}
 		nontrivial := false
 		for _, h := range cf.Histories {
-			if len(h) > 0 && !roots[i].Wait {
+			if len(h) > 0 && !roots[i].Wait && h[0] != "again" {
 				continue
 			}
 			if i >= nMain && (len(h) == 0 || !strings.HasPrefix(h[0], "refresh:")) {
